@@ -30,9 +30,21 @@ func (rr *RoundRobinStrategy) NextBackend(r *http.Request) *Backend {
 		return nil
 	}
 
+	// Rotate over healthy backends only, like the other strategies
+	healthyBackends := make([]*Backend, 0, len(rr.backends))
+	for _, b := range rr.backends {
+		if b.healthy() {
+			healthyBackends = append(healthyBackends, b)
+		}
+	}
+
+	if len(healthyBackends) == 0 {
+		return nil
+	}
+
 	// Get the next index in a thread-safe way
-	idx := atomic.AddUint64(&rr.current, 1) % uint64(len(rr.backends))
-	return rr.backends[idx]
+	idx := atomic.AddUint64(&rr.current, 1) % uint64(len(healthyBackends))
+	return healthyBackends[idx]
 }
 
 // AddBackend adds a backend to the pool
